@@ -18,7 +18,7 @@ def _host_state_programs():
     """programs whose outcome depends on process-wide host settings an evaluation could leave changed:
     the integer ↔ decimal-string conversion limit (printing, ㅁㅈ, ㅈㅅ of > 4300 digits), the working directory
     (relative file paths after imports from sub-directories), the recursion bookkeeping after a stack-limit abort"""
-    from . import c14
+    from . import c14, c05
     big = bi('ㅅ', lit(10), lit(5000))
     return [
         render(big),                                             # prints 5001 digits
@@ -33,6 +33,10 @@ def _host_state_programs():
         f"ㄴ ㅈㄹ ㄱㄴㅎㄷ ({render(bytes_lit(b'a'))} ㅈㄹ ㄱㅇㄱ ㅎㄷ ㅎ) ㄱㄹㅎㄷ",
         "ㄱ ㄹ ㄱㄴㅎㄷ (ㄹ ㄹ ㄱㅇㄱ ㅎㄷ ㅎ) ㄱㄹㅎㄷ",
         f"(ㄴ ㅈㄹ ㄱㄴㅎㄷ ({render(bytes_lit(b'b'))} ㅈㄹ ㄱㅇㄱ ㅎㄷ ㅎ) ㄱㄹㅎㄷ) ({render(str_lit('t'))} ㅈㄹㅎㄴ ㅎ) ㄱㄹㅎㄷ",
+        # values nested hundreds / thousands of levels deep, printed: whether this ends in a value, the limit report or (recorded
+        # finding 2) the host's recursion error, it ends the same way first and after any number of other evaluations
+        # (seeded change S20j raised the host recursion limit by 5000 on every evaluation)
+        c05.nestfmt(300)[0], c05.nestfmt(600)[0], c05.nestfmt(3500)[0], c05.nestfmt(4500)[0],
         # process-lifetime *functions* (built-in module functions, functions of an imported module) compared with / keyed next
         # to functions created by this evaluation: different functions, in every evaluation (seeded change S20i restarted
         # the identity numbering per program)
@@ -321,7 +325,7 @@ def cases(rng, tier):
     B = 24
     for tag, ss in (('session', sessions), ('pair', pairs), ('equalish', _equalish_sessions(rng, tier))):
         for i in range(0, len(ss), B):
-            yield Case(program=ss[i][0], fs=FS, stdin="in1\nin2\n", tag=tag, monitor='c20_session', data=ss[i:i + B],
+            yield Case(program="ㄱ", fs=FS, stdin="in1\nin2\n", tag=tag, monitor='c20_session', data=ss[i:i + B],
                        skip_model=True, timeout=900)
     yield Case(program="ㄱ", tag='history', monitor='c20_history', data=_history_items(), skip_model=True, timeout=900)
     # stand-alone outcome of every pool program equals the model's (so "stand-alone" means the specified outcome)
